@@ -2,7 +2,7 @@
 (* C20: exhaustive exploration of all call sequences (bounded length) x tool behaviours. *)
 EXTENDS AppLifecycleOps
 
-CONSTANT Depth
+CONSTANTS Depth, ToolSet      \* ToolSet: CoreTools (graph for the replay) or AllTools
 
 VARIABLES app, proc, files, cleanups, cwd, res, tool, failed, oc, out, last, silent
 vars == <<app, proc, files, cleanups, cwd, res, tool, failed, oc, out, last, silent>>
@@ -10,7 +10,7 @@ vars == <<app, proc, files, cleanups, cwd, res, tool, failed, oc, out, last, sil
 Cur == [app |-> app, proc |-> proc, files |-> files, cleanups |-> cleanups, cwd |-> cwd,
         res |-> res, tool |-> tool, failed |-> failed]
 
-Init == \E t \in Tools :
+Init == \E t \in ToolSet :
           LET S == InitState(t) IN
           /\ app = S.app /\ proc = S.proc /\ files = S.files /\ cleanups = S.cleanups
           /\ cwd = S.cwd /\ res = S.res /\ tool = S.tool /\ failed = S.failed
@@ -27,8 +27,9 @@ Call(c) ==
 
 Next == \E c \in Calls : Call(c)
 Spec == Init /\ [][Next]_vars
-\* liveness is checked on the unconstrained spec: weak fairness of the environment step
-FairSpec == Spec /\ WF_vars(Call("proc_exits"))
+\* liveness is checked on the unconstrained spec: weak fairness of the environment steps, and
+\* of join for the programs that wait for a reader
+FairSpec == Spec /\ WF_vars(Call("proc_exits")) /\ WF_vars(Call("proc_writes")) /\ WF_vars(Call("join"))
 
 DepthBound == TLCGet("level") <= Depth
 
@@ -36,6 +37,7 @@ InvRunEndsClean == RunEndsClean(Cur)
 InvNoCleanupBeforeEnd == NoCleanupBeforeEnd(Cur)
 InvResultsOnlyAfterJoin == ResultsOnlyAfterJoin(Cur)
 InvProcConsistent == ProcConsistent(Cur)
+InvResultsOnlyOfSuccess == ResultsOnlyOfSuccess(Cur)
 InvCleanupAtMostOnce == cleanups <= 1
 \* a refused call has no side effect on anything
 RefusalIsNoOp ==
@@ -44,9 +46,11 @@ RefusalIsNoOp ==
        /\ cwd' = cwd /\ res' = res /\ failed' = failed]_vars
 \* a call is refused exactly when the documented life cycle does not allow it
 LegalIffAllowed ==
-  [][(~silent' /\ last' # "proc_exits") => ((oc' = "AppStateError") = (app \notin Allowed(last')))]_vars
+  [][(~silent' /\ last' \notin EnvSteps) => ((oc' = "AppStateError") = (app \notin Allowed(last')))]_vars
 \* once ended, a run stays ended and clean
 EndedIsStable == [][RunEnded(Cur) => (app' = app /\ cleanups' = cleanups /\ files' = files)]_vars
-\* a started, non-hanging program can always be brought to an end by join
-EventuallyExits == (proc = "running") ~> (proc = "exited")
+\* a started program does not stay in its working phase for ever, and a program that waits
+\* for a reader is brought to an end by join
+EventuallyExits == (proc = "running") ~> (proc \in {"blocked", "exited"})
+BlockedIsJoinable == (proc = "blocked") ~> (proc = "exited")
 =============================================================================
